@@ -445,7 +445,7 @@ func TestPubSubFree(t *testing.T) {
 			vkit.Fail(t, sig, "%s\ncase: %s\nhistory: %s", fmt.Sprintf(f, a...), strings.Join(trace, " ; "), strings.Join(hist, " ; "))
 		}
 		if len(panics) > 0 {
-			fail("C07/panic-in-contract-use", "panic(s) although every subscriber followed the contract: %v", panics)
+			fail(psfPanicSig(panics), "panic(s) although every subscriber followed the contract: %v", panics)
 		}
 		if finalCount != 0 {
 			fail("C07/final-count", "Add(0)=%d after every subscription was withdrawn", finalCount)
@@ -617,4 +617,16 @@ func TestPubSubFree(t *testing.T) {
 		st.Metric("mid-send-unsubscribes", midSendLeave)
 		st.Case(trace, nt, cls...)
 	})
+}
+
+
+// psfPanicSig: a panic in contract-following use is a C07 matter; when a Send is among the panicking calls the message
+// it carried reached nobody and its count is lost, which is C06's business as well.
+func psfPanicSig(panics []string) string {
+	for _, p := range panics {
+		if strings.Contains(p, "sender") {
+			return "C07+C06/panic-in-contract-use"
+		}
+	}
+	return "C07/panic-in-contract-use"
 }
